@@ -409,6 +409,11 @@ pub fn run_case(out: &mut Out, header: &str) {
         crate::c06codec::run_case(out, header);
         return;
     }
+    if matches!(a.get(2), Some(&"cmt") | Some(&"cmtw") | Some(&"cmtf")) {
+        // comments: text, VML shapes, positional join (harness/src/c06cmt.rs)
+        crate::c06cmt::run_case(out, header);
+        return;
+    }
     if a.get(2) == Some(&"fuzz") {
         let seed = a.get(3).and_then(|x| x.parse().ok()).unwrap_or(0);
         let n = a.get(4).and_then(|x| x.parse().ok()).unwrap_or(100);
@@ -531,6 +536,7 @@ pub fn gen(tier: Tier, seed: u64) -> Vec<String> {
         v.push(format!("c06 reset vpp {}", rng.next() % 1_000_000_007));
     }
     v.extend(crate::c06codec::gen(tier, &mut rng));
+    v.extend(crate::c06cmt::gen(tier, &mut rng));
     v
 }
 
